@@ -7,8 +7,9 @@ from .. import astutil as A
 from .. import pydata as PD
 from ..core import AnalysisError, Collector
 from ..refsmodel import ref_classes, _local_alias, resolve_local
-from .common import FnCtx, fnctx, has_guard, is_method_call, is_self_call
-from . import c03, c06
+from .. import sym as S
+from .common import FnCtx, fnctx, sctx, has_guard, is_method_call, is_self_call
+from . import c01, c03, c06
 
 PROP = "C11"
 FLOORS = {"C11.R1": 8, "C11.R2": 6, "C11.R3": 6, "C11.R4": 4, "C11.R5": 8, "C11.R6": 4}
@@ -142,103 +143,114 @@ def _literal_rendering(col, rule="C11.R6"):
     col.add(rule, "ExprTask.__repr__#target=expr", ok, cx.loc(cx.fn), "an expression task prints as `target = expr`", "")
 
 
+TEXT_OPS = {"replace", "translate", "sub", "subn", "split", "rsplit", "strip", "lstrip", "rstrip", "removeprefix", "removesuffix",
+            "partition", "rpartition", "lower", "upper"}
+
+
 def _no_text_rewriting(col, rule="C11.R4"):
     repo = col.repo
     for name in ("copy_expr_from", "load", "dump", "iter_expr_tasks_owner"):
-        cx = fnctx(repo, "Manager", name)
-        bad = [c for c in A.calls(cx.fn) if (isinstance(c.func, ast.Attribute) and c.func.attr in ("replace", "translate", "format", "sub", "subn", "split", "join", "strip", "lstrip", "rstrip"))
-               or (A.call_name(c) or "").startswith("re.")]
-        col.add(rule, f"Manager.{name}#no-textual-rewriting", not bad, cx.loc(cx.fn),
+        sx = sctx(repo, "Manager", name, public=True, keep=c01.ANCHORS)
+        bad = []
+        for ev in sx.events:
+            if ev.kind != "call":
+                continue
+            for t in S.alts(ev.term):
+                f = t[1]
+                if f[:1] == ("attr",) and f[2] in TEXT_OPS:
+                    bad.append(S.show(t)[:70])
+                elif f[:1] == ("attr",) and f[1] == ("glob", "re"):
+                    bad.append(S.show(t)[:70])
+        col.add(rule, f"Manager.{name}#no-textual-rewriting", not bad, sx.loc(sx.fn),
                 "printed expressions are passed on verbatim (no str.replace / regex on the text: keys may contain a container label)",
-                f"{[A.src(b)[:60] for b in bad]}")
+                f"{bad}")
 
 
 def _dump_load(col, rule="C11.R5"):
     repo = col.repo
-    # dump
-    cx = fnctx(repo, "Manager", "dump")
-    comp = [n for n in A.walk(cx.fn) if isinstance(n, (ast.ListComp,))]
-    ok = False
-    facts = ""
-    if len(comp) == 1 and len(comp[0].generators) == 1:
-        g = comp[0].generators[0]
-        tv = A.target_names(g.target)
-        e = comp[0].elt
-        facts = A.src(comp[0])
-        pair_ok = isinstance(e, ast.Tuple) and len(e.elts) == 2 and all(isinstance(x, ast.Call) and A.call_name(x) == "str" for x in e.elts) and \
-            [A.dotted(x.args[0]) for x in e.elts] == [f"{tv[0]}.taskid", f"{tv[0]}.expr"]
-        it_ok = A.src(g.iter) == "self.tasks.values()"
-        if_ok = len(g.ifs) == 1 and isinstance(g.ifs[0], ast.Call) and A.call_name(g.ifs[0]) == "isinstance" and \
-            [A.dotted(a) for a in g.ifs[0].args] == [tv[0], "ExprTask"]
-        ok = pair_ok and it_ok and if_ok
-    col.add(rule, "Manager.dump#every-ExprTask-as-(str(target),str(expr))", ok, cx.loc(cx.fn),
+    # ---- dump
+    sx = sctx(repo, "Manager", "dump", public=True, keep=c01.ANCHORS)
+    rets = sx.of_kind("return")
+    if len(rets) != 1:
+        raise AnalysisError("Manager.dump: expected one return -- cannot decide")
+    t_ = ("elem", S.mcall(S.sattr("tasks"), "values"))
+    want_pair = ("tuple", (S.fcall("str", ("attr", t_, "taskid")), S.fcall("str", ("attr", t_, "expr"))))
+    v = rets[0].value
+    ok, facts = False, S.show(v)
+    if v[:1] == ("acc",) and v[1] in ("list", "gen") or S.is_call_of(v, ("glob", "list")):
+        acc = v if v[:1] == ("acc",) else v[2][0]
+        if acc[:1] == ("acc",):
+            cs = acc[2]
+            ok = len(cs) == 1 and cs[0][0] == "one" and cs[0][2] == want_pair and \
+                list(cs[0][1]) == [(True, S.fcall("isinstance", t_, ("glob", "ExprTask")))]
+    else:
+        raise AnalysisError(f"Manager.dump: unrecognised result {S.show(v)} -- cannot decide")
+    col.add(rule, "Manager.dump#every-ExprTask-as-(str(target),str(expr))", ok, sx.loc(rets[0]),
             "dump emits (str(taskid), str(expr)) for every ExprTask of self.tasks, filtered by nothing else", facts)
-    # load
-    cx = fnctx(repo, "Manager", "load")
-    P = A.params(cx.fn)
-    dump_p, dct_p = P[1], P[2]
-    evals = [c for c in A.calls(cx.fn) if A.call_name(c) == "eval"]
-    ok = len(evals) == 2 and all(len(c.args) == 3 and isinstance(c.args[1], ast.Dict) and not c.args[1].keys and A.dotted(c.args[2]) == dct_p for c in evals)
-    col.add(rule, "Manager.load#both-sides-in-one-namespace", ok, cx.loc(cx.fn),
-            "load evaluates target and expression text in the same namespace (empty globals => builtins, locals = the container labels)",
-            f"{[A.src(c) for c in evals]}")
-    loops = [n for n in A.walk(cx.fn) if isinstance(n, ast.For) and A.dotted(n.iter) == dump_p]
-    ok = len(loops) == 1 and len(A.target_names(loops[0].target)) == 2
-    facts = ""
-    if ok:
-        lhs, rhs = A.target_names(loops[0].target)
-        mk = [c for c in A.calls(loops[0]) if A.call_name(c) == "ExprTask"]
-        ok = len(mk) == 1 and [A.dotted(a) for a in mk[0].args] == [lhs, rhs]
-        # lhs / rhs rebinding by eval of themselves
-        for nm in (lhs, rhs):
-            asg = [n for n in A.walk(loops[0]) if isinstance(n, ast.Assign) and A.target_names(n.targets[0]) == [nm]]
-            ok = ok and len(asg) == 1 and A.call_name(asg[0].value) == "eval" and A.dotted(asg[0].value.args[0]) == nm
-        facts = A.src(mk[0]) if mk else ""
-    col.add(rule, "Manager.load#ExprTask(lhs,rhs)", ok, cx.loc(cx.fn),
-            "each pair (lhs, rhs) of the dump becomes ExprTask(eval(lhs), eval(rhs)) -- target first", facts)
-    dn = [n for n in cx.cfg.nodes.values() if n.kind == "stmt" and isinstance(n.ast, ast.Assign) and A.target_names(n.ast.targets[0]) == [dct_p]]
-    okd = all(has_guard(cx.cfg, n.id, "T", lambda t: A.compare_parts(t) and isinstance(A.compare_parts(t)[1], ast.Is) and A.dotted(A.compare_parts(t)[0]) == dct_p)
-              and A.dotted(n.ast.value) == "self.containers" for n in dn)
-    col.add(rule, "Manager.load#default-namespace", okd, cx.loc(cx.fn), "the namespace defaults to the manager's containers only when none is given", "")
+    # ---- load
+    sx = sctx(repo, "Manager", "load", public=True, keep=c01.ANCHORS)
+    dump_p, dct_p = sx.P(0), sx.P(1)
+    R = sx.calls_some(S.mcall(S.SELF, "register", S.V("t")))
+    if not R:
+        raise AnalysisError("Manager.load: no register call -- cannot decide")
+    item = ("elem", dump_p)
+    for ev, m in R:
+        ns = S.V("ns", lambda t: all(a in (dct_p, S.sattr("containers")) for a in S.alts(t)) and dct_p in S.alts(t))
+        want = S.fcall("ExprTask", S.fcall("eval", ("item", item, 0), ("dict", ()), ns), S.fcall("eval", ("item", item, 1), ("dict", ()), ns))
+        mm = S.match(m["t"], want)
+        col.add(rule, "Manager.load#ExprTask(lhs,rhs)", mm is not None, sx.loc(ev),
+                "each pair (lhs, rhs) of the dump becomes ExprTask(eval(lhs), eval(rhs)) -- target first -- with both sides evaluated "
+                "in one namespace (empty globals => builtins; locals = the container labels given, or the manager's)", S.show(m["t"]))
+    from .c02 import default_only_when_none
+    before = len(col.obs)
+    default_only_when_none(col, rule, sx, "Manager.load", dct_p)
+    if len(col.obs) == before:
+        col.ok(rule, "Manager.load#default-only-when-None", sx.loc(sx.fn), "no default substitution of the namespace", "")
     # overwrite handling and unregister-before-register (shared with C03.R2)
     sub = Collector(repo, "C11", col.tier)
-    c03._redefinition(sub, rule=rule)
-    for o in sub.obs:
-        if o.construct.startswith("Manager.load#"):
-            o.rule = rule
-            col.obs.append(o)
-    # iter_expr_tasks_owner / copy_expr_from
-    cx = fnctx(repo, "Manager", "iter_expr_tasks_owner")
-    ys = [n for n in A.walk(cx.fn) if isinstance(n, ast.Yield)]
-    ok = len(ys) == 1 and isinstance(ys[0].value, ast.Tuple) and [A.src(e) for e in ys[0].value.elts] == ["str(t.taskid)", "str(t.expr)"]
-    ok = ok or (len(ys) == 1 and isinstance(ys[0].value, ast.Tuple) and len(ys[0].value.elts) == 2 and
-                all(A.call_name(e) == "str" for e in ys[0].value.elts) and
-                [A.dotted(e.args[0]).split(".")[-1] for e in ys[0].value.elts] == ["taskid", "expr"])
-    col.add(rule, "Manager.iter_expr_tasks_owner#yields-(str(target),str(expr))", ok, cx.loc(cx.fn),
-            "the definitions copied are (str(taskid), str(expr)) of the tasks under the container", "")
-    cx = fnctx(repo, "Manager", "copy_expr_from")
-    P = A.params(cx.fn)
-    loads = cx.call_nodes(lambda c: is_self_call(c, "load"))
-    ok = len(loads) == 1
-    facts = ""
-    if ok:
-        c = cx.calls_at(loads[0], lambda c: is_self_call(c, "load"))[0]
-        facts = A.src(c)
-        ow = [k for k in c.keywords if k.arg == "overwrite"]
-        ok = bool(ow) and A.dotted(ow[0].value) == "overwrite" or (len(c.args) >= 3 and A.dotted(c.args[2]) == "overwrite")
-        src_arg = cx.resolve(c.args[0], loads[0]) if c.args else None
-        def is_iter(e):
-            if isinstance(e, ast.Call) and A.call_name(e) == "list" and e.args:
-                e = e.args[0]
-            return isinstance(e, ast.Call) and isinstance(e.func, ast.Attribute) and e.func.attr == "iter_expr_tasks_owner" and A.dotted(e.func.value) == P[1]
-        ok = ok and is_iter(src_arg)
-    col.add(rule, "Manager.copy_expr_from#loads-source-definitions-verbatim", ok, cx.loc(cx.fn),
-            "copy_expr_from loads exactly the source manager's printed definitions, forwarding overwrite", facts)
-    # bindings: label -> new ref, in the evaluation namespace
-    binds = [n for n in A.walk(cx.fn) if isinstance(n, ast.Assign) and isinstance(n.targets[0], ast.Subscript)]
-    okb = any(isinstance(b.targets[0].slice, ast.Call) and A.call_name(b.targets[0].slice) == "str" for b in binds)
-    col.add(rule, "Manager.copy_expr_from#bindings-in-namespace", okb, cx.loc(cx.fn),
-            "a rebinding maps the printed label of the old container to the new reference in the evaluation namespace", "")
+    c03.load_protocol(sub, rule)
+    col.obs.extend(sub.obs)
+    # ---- iter_expr_tasks_owner
+    sx = sctx(repo, "Manager", "iter_expr_tasks_owner", public=True, keep=c01.ANCHORS | {"_check_root_owner"})
+    ys = sx.of_kind("yield") + sx.of_kind("return")
+    ok, facts = bool(ys), ""
+    for y in ys:
+        v = y.value
+        mm = S.match(v, ("tuple", (S.fcall("str", ("attr", S.V("t"), "taskid")), S.fcall("str", ("attr", S.V("t"), "expr")))))
+        if mm is None and v[:1] == ("acc",):
+            mm = S.match(v[2][0][2] if v[2] else None, ("tuple", (S.fcall("str", ("attr", S.V("t"), "taskid")), S.fcall("str", ("attr", S.V("t"), "expr")))))
+        if mm is None or not (mm["t"][:1] == ("elem",) and S.is_call_of(mm["t"][1], meth="find_tasks")):
+            ok, facts = False, S.show(v)
+    col.add(rule, "Manager.iter_expr_tasks_owner#yields-(str(target),str(expr))", ok, sx.loc(sx.fn),
+            "the definitions copied are (str(taskid), str(expr)) of the tasks under the container", facts)
+    # ---- copy_expr_from
+    sx = sctx(repo, "Manager", "copy_expr_from", public=True, keep=c01.ANCHORS)
+    mgr, name = sx.P(0), sx.P(1)
+    binds, ow = sx.pnamed("bindings"), sx.pnamed("overwrite")
+    loads = sx.calls_some(("call", ("attr", S.SELF, "load"), S.V("a"), S.V("k")))
+    if len(loads) != 1:
+        raise AnalysisError("Manager.copy_expr_from: expected one self.load(...) -- cannot decide")
+    ev, m = loads[0]
+    args, kws = list(m["a"]), dict(m["k"])
+    src = args[0] if args else kws.get("dump")
+    ns = args[1] if len(args) > 1 else kws.get("dct")
+    owa = args[2] if len(args) > 2 else kws.get("overwrite")
+    it = S.mcall(mgr, "iter_expr_tasks_owner", ("sub", ("attr", mgr, "containers"), name))
+    src_ok = src is not None and (src == it or src == S.fcall("list", it) or
+                                  (src[:1] == ("acc",) and len(src[2]) == 1 and src[2][0][0] == "many" and src[2][0][2] == it and not src[2][0][1]))
+    col.add(rule, "Manager.copy_expr_from#loads-source-definitions-verbatim", src_ok and owa == ow, sx.loc(ev),
+            "copy_expr_from loads exactly the source manager's printed definitions, forwarding overwrite", S.show(ev.term)[:200])
+    okb, factb = False, S.show(ns) if ns is not None else "no namespace argument"
+    if ns is not None and ns[:1] == ("acc",) and ns[1] == "dict":
+        base = [c for c in ns[2] if c[0] == "many" and c[2] == S.sattr("containers") and not c[1]]
+        bsrc = lambda t: all(a == binds or a in (("dict", ()), ("acc", "dict", ())) or (a[:1] == ("bool",) and binds in a[2]) for a in S.alts(t))   # noqa: E731
+        kv = [c for c in ns[2] if c[0] == "kv"]
+        kv_ok = len(kv) == 1 and not kv[0][1] and S.match(kv[0][2], S.fcall("str", ("key", S.V("b", bsrc)))) is not None \
+            and S.match(kv[0][3], ("val", S.V("b", bsrc))) is not None
+        okb = len(base) == 1 and kv_ok and len(ns[2]) == 2
+    col.add(rule, "Manager.copy_expr_from#bindings-in-namespace", okb, sx.loc(ev),
+            "the evaluation namespace is the target manager's containers plus, for every binding, the printed label of the old "
+            "container mapped to the new reference", factb)
 
 
 def check(col: Collector):
